@@ -917,6 +917,11 @@ add("C05", "hive named_struct builder walks up to len(args)", "sqlglot/parsers/h
     "    for i in range(0, len(args) - 1, 2):", "    for i in range(0, len(args), 2):", "C05.s")
 add("C05", "revert: connector function unpacks the argument list it just reported empty", "sqlglot/parser.py",
     "            self.raise_error(\"Expected at least one argument\")\n            return exp.Paren()\n", "            self.raise_error(\"Expected at least one argument\")\n", "C05.t")
+add("C05", "revert: Teradata converts the operand of a negation it has not tested", "sqlglot/generators/teradata.py",
+    "        if isinstance(value, exp.Neg) and value.this.is_number:\n", "        if isinstance(value, exp.Neg):\n", "C05.r")
+add("C05", "benign: DuckDB array position guard split into two early exits", "sqlglot/generators/duckdb.py",
+    "    if not position or not position.is_int:\n        self.unsupported(\"ARRAY_INSERT can only be transpiled with a literal position\")\n        return self.func(\"ARRAY_INSERT\", this, position, element)\n",
+    "    if not position:\n        return self.func(\"ARRAY_INSERT\", this, position, element)\n    if not position.is_int:\n        self.unsupported(\"ARRAY_INSERT can only be transpiled with a literal position\")\n        return self.func(\"ARRAY_INSERT\", this, position, element)\n", "silent")
 add("C05", "revert: DEFAULT <property> dispatch outside the TypeError conversion", "sqlglot/parser.py",
     "                try:\n                    return self.PROPERTY_PARSERS[self._prev.text.upper()](self, default=True)\n                except TypeError:\n                    self.raise_error(f\"Cannot parse property '{self._prev.text}'\")\n",
     "                return self.PROPERTY_PARSERS[self._prev.text.upper()](self, default=True)\n", "C05.q")
